@@ -294,12 +294,12 @@ type message struct {
 type caseSpec struct {
 	via       string
 	thr       int
-	fast, lag int // V=h: websocket subscribers
+	fast, lag int    // V=h: websocket subscribers
 	failK     int    // V=f, F=<k>:<mode>: the sink fails on its k-th Write
 	failMode  string // once ever short slow
 	ns        int    // NS=n: the same messages are logged to n independent streams (or Modifiers)
-	phase     int // PH=k: messages k.. are logged in a second phase, after lagging subscribers were released
-	join      int // J=n: subscribers joining between the phases
+	phase     int    // PH=k: messages k.. are logged in a second phase, after lagging subscribers were released
+	join      int    // J=n: subscribers joining between the phases
 	msgs      []*message
 }
 
@@ -788,6 +788,11 @@ func runMS(in []string) []string {
 				}
 			}
 			p1.Wait()
+			if fs, ok := sinks[0].(*failSink); ok {
+				// let the frame in flight (if any) reach the writer first
+				time.Sleep(20 * time.Millisecond)
+				fs.disarm()
+			}
 			if hs, ok := sk.(*handlerSink); ok {
 				hs.resume()
 				hs.join(cs.join)
